@@ -655,6 +655,15 @@ class FTreeGet(FSearch):
 
 class FLeafAny(CExec):
     family = "F-LEAF"
+    ASSUMES = [
+        "F-LEAF: realloc returns NULL (nothing changed) or a block holding the old contents that is the old block grown in place "
+        "or overlaps no live block; malloc likewise; memmove / memcpy are exact copies from the old memory; free does not touch "
+        "contents; PER_* callbacks, PyErr_*, Py_INCREF / Py_DECREF do not touch the leaf's fields or vectors",
+        "F-LEAF: len <= size; `changed` does not point into the vectors; callers pass noval exactly for set leaves (no value "
+        "vector); bucket_append: the authors' asserts (self != from, i >= 0, n > 0, i + n <= from->len), vectors of distinct "
+        "leaves do not overlap",
+        "F-LEAF: the search result used is F-SEARCH's postcondition (proved in the same run); object-keyed units are outside; "
+        "py_number_of(x) is a function of the C value"]
 
     @classmethod
     def applies(cls, tu, fn):
